@@ -5,13 +5,14 @@
 (* naturals are little-endian sequences of base-10^4 limbs (products stay     *)
 (* below 2^31); zero is <<>>; no most-significant zero limbs.                 *)
 (*                                                                           *)
-(* A format is [mb, eb, hi, lo]: mantissa bits, exponent bits, and decimal    *)
-(* magnitude screens (values with nd+E > hi overflow for sure, with nd+E < lo *)
-(* round to zero for sure) that save big arithmetic in the obvious cases.     *)
+(* A format is [mb, eb, hi, lo, safe]: mantissa bits, exponent bits, and       *)
+(* decimal magnitude screens (values with nd+E > hi overflow for sure, with   *)
+(* nd+E < lo round to zero for sure, with nd+E <= safe are finite for sure)   *)
+(* that save big arithmetic in the obvious cases.                             *)
 EXTENDS Integers, Sequences, SequencesExt
 
 B == 10000
-Binary64 == [mb |-> 52, eb |-> 11, hi |-> 310, lo |-> -330]
+Binary64 == [mb |-> 52, eb |-> 11, hi |-> 310, lo |-> -330, safe |-> 308]
 
 Trim(a) == LET RECURSIVE T(_)
                T(k) == IF k = 0 THEN 0 ELSE IF a[k] # 0 THEN k ELSE T(k - 1)
@@ -136,7 +137,7 @@ OverflowG(lit, fmt) ==
   LET nd == Len(lit.ds)  mag == nd + lit.E
       top == SubOne(Pow2(fmt.mb + 2))                                   \* 2^(mb+2) - 1
       kmax == (2^fmt.eb - 2) - Bias(fmt) - fmt.mb
-  IN nd > 0 /\ (mag > fmt.hi \/ (mag >= fmt.lo /\ CmpScaled(FromDigits(lit.ds), lit.E, top, kmax - 1) >= 0))
+  IN nd > 0 /\ (mag > fmt.hi \/ (mag > fmt.safe /\ CmpScaled(FromDigits(lit.ds), lit.E, top, kmax - 1) >= 0))
 
 \* binary64 from four 16-bit words <<w3, w2, w1, w0>>
 Rounded(lit, w) ==
